@@ -48,9 +48,14 @@ def _off(p, shape):
     return o
 
 
-def cum(ctx, shape, func, axis, dkind='f', nan=False, lkinds=None):
+def cum(ctx, shape, func, axis, dkind='f', nan=False, lkinds=None, transposed=False):
     lkinds = lkinds or ['i', 'U', 'f', 'i'][:len(shape)]
     a, ref, dims, labels, attrs = _build(ctx, shape, lkinds, dkind, nan)
+    if transposed:
+        rev = list(reversed(range(len(shape))))
+        a = a.transpose([dims[i] for i in rev])
+        ref = ref.transpose(rev)
+        dims, labels, shape = list(ref.dims), ref.labels, list(ref.shape)
     kw, pos = _axarg(dims, axis)
     r = ctx.call(lambda: getattr(a, func)(**kw))
     if r[0] != 'ok':
@@ -132,9 +137,17 @@ def diff(ctx, shape, axis, scheme='backward', keepaxis=False, n=1, lkinds=None, 
     return ctx.done(same(ctx, r[1], Ref(dims, elabels, cells), attrs=attrs), ctx.observe(r[1]))
 
 
-def argext(ctx, shape, func, axis, skipna=False, nan=False, lkinds=None):
+def argext(ctx, shape, func, axis, skipna=False, nan=False, lkinds=None, transposed=False):
     lkinds = lkinds or ['U', 'i', 'f', 'i'][:len(shape)]
     a, ref, dims, labels, attrs = _build(ctx, shape, lkinds, 'f', nan)
+    if transposed:
+        # the same questions asked of a transposed array (not C-contiguous in NumPy)
+        rev = list(reversed(range(len(shape))))
+        a = a.transpose([dims[i] for i in rev])
+        ref = ref.transpose(rev)
+        dims = list(ref.dims)
+        labels = ref.labels
+        shape = list(ref.shape)
     ismin = func == 'argmin'
     kw = {}
     if skipna:
@@ -216,6 +229,8 @@ def templates():
             for axis in axes:
                 add('%s-%s-%s' % (func, 'x'.join(map(str, shape)), axis), 'cum', cost=0.2, shape=shape, func=func, axis=axis)
         add('%s-int' % func, 'cum', cost=0.2, shape=[2, 3], func=func, axis='default', dkind='i')
+        add('%s-transposed' % func, 'cum', cost=0.2, shape=[2, 3], func=func, axis='default', transposed=True)
+        add('%s-transposed-3d' % func, 'cum', cost=0.3, shape=[2, 3, 2], func=func, axis=0, transposed=True)
         add('%s-nan' % func, 'cum', cost=1, shape=[2, 2], func=func, axis=0, nan=True)
         add('%s-4d' % func, 'cum', 'thorough', cost=2, shape=[2, 2, 2, 2], func=func, axis='name1')
     for scheme in ('backward', 'forward', 'centered'):
@@ -247,5 +262,9 @@ def templates():
             add('%s-%s-nan' % (func, 'x'.join(map(str, shape))), 'argext', 'quick' if shape != [2, 3] else 'thorough', cost=6, shape=shape, func=func, axis=0, nan=True)
             add('%s-%s-nan-skipna' % (func, 'x'.join(map(str, shape))), 'argext', 'quick' if shape != [2, 3] else 'thorough', cost=6, shape=shape, func=func, axis=1, nan=True, skipna=True)
         add('%s-3d-axis1' % func, 'argext', cost=8, shape=[2, 2, 2], func=func, axis='name1')
+        for shape in ([2, 3], [3, 2], [2, 2, 2]):
+            add('%s-transposed-%s-none' % (func, 'x'.join(map(str, shape))), 'argext', cost=4 if len(shape) == 2 else 30, shape=shape, func=func, axis=None, transposed=True,
+                tier='quick') if False else add('%s-transposed-%s-none' % (func, 'x'.join(map(str, shape))), 'argext', 'quick' if len(shape) == 2 else 'thorough', 4 if len(shape) == 2 else 30, shape=shape, func=func, axis=None, transposed=True)
+            add('%s-transposed-%s-axis0' % (func, 'x'.join(map(str, shape))), 'argext', cost=4, shape=shape, func=func, axis=0, transposed=True)
         add('%s-3d-none' % func, 'argext', 'thorough', cost=30, shape=[2, 2, 2], func=func, axis=None)
     return ts
